@@ -6,6 +6,7 @@ import (
 	"context"
 	"errors"
 
+	"github.com/avos-io/goat/gen/goatorepo"
 	"github.com/avos-io/goat/gen/testproto"
 	"google.golang.org/grpc"
 )
@@ -20,6 +21,7 @@ func H_C10_end() {
 	ns := vfParam("s", 0)
 	fault := vfParam("fault", 0)
 	hmode := vfParam("hmode", 0)
+	rst := vfParam("rst", 0) // the peer resets each stream it opened (the handler is then slow to return)
 	impl := &zzImpl{}
 	unaryStarted, unaryReturned, unaryCtxDoneAtReturn := 0, 0, 0
 	var unaryCtxs []context.Context
@@ -45,6 +47,11 @@ func H_C10_end() {
 		strCtxs = append(strCtxs, stream.Context())
 		impl.mu.vfUnlock()
 		defer func() {
+			if rst == 1 {
+				// a handler may take its time between noticing the cancellation and returning
+				vfYield()
+				vfYield()
+			}
 			impl.mu.vfLock()
 			strReturned++
 			impl.mu.vfUnlock()
@@ -89,9 +96,15 @@ func H_C10_end() {
 			conn.in <- &Rpc{Id: id, Header: zzReqHdr("Unary"), Body: zzBody(5)}
 			id++
 		}
+		first := id
 		for i := 0; i < ns; i++ {
 			conn.in <- &Rpc{Id: id, Header: zzReqHdr("BidiStream")}
 			id++
+		}
+		if rst == 1 {
+			for i := 0; i < ns; i++ {
+				conn.in <- &Rpc{Id: first + uint64(i), Header: zzReqHdr("BidiStream"), Reset_: &goatorepo.Reset{Type: "RST_STREAM"}}
+			}
 		}
 	}()
 	go func() {
